@@ -351,7 +351,13 @@ def render_verilog(nl, lib, seed, simple=False, modname='top'):
             lit = [f"{width}'b" + ('1' if over != val else '') + ''.join(str(v) for v in cv), f"{width}'d{over}", f"{width}'h{over:x}",
                    f"{width}'B" + ''.join(str(v) for v in cv)][st.pick(4)]
             lhs = po_names[grp[0]] if width == 1 else '{' + ','.join(po_names[j] for j in grp) + '}'
-            assigns.append(f'assign {lhs}{st.sp()}={st.sp()}{lit}{st.sp()};')
+            if not simple and st.pick(3) == 0:         # the constant reaches the port through a named wire: two assigns, in any order
+                cw = f'cw{len(assigns)}'
+                decl_stmts.append(f'wire [{width - 1}:0] {cw};' if width > 1 else f'wire {cw};')
+                pair = [f'assign {lhs}{st.sp()}={st.sp()}{cw}{st.sp()};', f'assign {cw}{st.sp()}={st.sp()}{lit}{st.sp()};']
+                assigns += pair if st.pick(2) else pair[::-1]
+            else:
+                assigns.append(f'assign {lhs}{st.sp()}={st.sp()}{lit}{st.sp()};')
         elif len(grp) == 1:
             assigns.append(f'assign{st.ws()}{po_names[k]}{st.sp()}={st.sp()}{ref(nl["po"][k])}{st.sp()};')
         else:
